@@ -7,7 +7,7 @@ M-POOL (with the measured prefill count P) and end in the state the model predic
 exception, all worker threads end after the context is left, the pool can be reused."""
 from __future__ import annotations
 import itertools, json, threading
-from harness.core import lean, child
+from harness.core import lean, child, sp
 
 ASSUMPTIONS = ["CPython queue.Queue is an unbounded FIFO whose get blocks while empty (the modelled boundary)",
                "the mapped function does not touch the pool"]
@@ -79,6 +79,57 @@ def run_one(lp, S, a):
         except BaseException as e:  # noqa: BLE001
             res["reuse"] = f"{type(e).__name__}: {e}"
     return res
+
+
+def run_overlap(a):
+    """Re-use *without* waiting for the abandoned pass to drain: pass 0 is abandoned after `stop_after`
+    results, pass 1 (`n2` inputs) starts at once on the same pool object while pass 0's worker threads are
+    still scheduled among the new ones.  Labels carry the pass they belong to."""
+    import sedpack.io.itertools.lazy_pool as lp
+    from harness.instr import sched as S
+    T, n, stop_after, n2 = a["T"], a["n"], a["stop_after"], a["n2"]
+    sch = S.Sched(seed=a.get("seed", 0), choices=a.get("choices"), policy=a.get("policy", "random"))
+    sch.multiT = T
+    state = {}
+    saved = S.install(lp, sch, state)
+    res = {"case": a}
+    got, got2, status = [], [], "done"
+    pool = lp.LazyPool(T)
+    sch.register("c")
+    try:
+        try:
+            with pool:
+                for i, y in enumerate(pool.imap_unordered(lambda x: x * 10, range(n) if n is not None else itertools.count())):
+                    got.append(y)
+                    if i + 1 >= stop_after:
+                        break
+            with pool:
+                for y in pool.imap_unordered(lambda x: x * 10 + 1, range(n2)):
+                    got2.append(y)
+        except S.Deadlock:
+            status = "DEADLOCK"
+        except BaseException as e:  # noqa: BLE001
+            status = "raised"; res["exc"] = f"{type(e).__name__}: {e}"
+        sch.finish()
+        stuck = sch.drain()
+    finally:
+        S.uninstall(lp, saved)
+    # "<pass>|label" -> "cur:label" / "old:<pass>:label" / "new"
+    cur, out = 0, []
+    for l in sch.labels:
+        if l == "new":
+            cur += 1; out.append("new"); continue
+        g, lab = l.split("|", 1)
+        out.append(f"cur:{lab}" if int(g) == cur else f"old:{g}:{lab}")
+    res.update({"status": status, "got": got, "got2": got2, "labels": out, "P": state.get("P"), "stuck": stuck,
+                "overlapped": sum(l.startswith("old:") for l in out),
+                "fields": [pool._active_threads, pool._to_process is None, pool._results is None]})
+    return res
+
+
+def run_overlaps(args):
+    sp.sedpack()
+    return [run_overlap(a) for a in args]
 
 
 def fix_labels(r):
@@ -202,6 +253,35 @@ def run(ctx):
     reps = lean.driver(reqs)
     corr_bad, distinct, labels_total = [], set(), 0
     Ps = set()
+    # ---- re-use while the abandoned pass is still draining (M-POOL `Multi`)
+    orng = ctx.rng("overlap")
+    ocases = []
+    for T in ([1, 2, 3] if not ctx.thorough else [1, 2, 3, 4]):
+        for n in (None, 3 * T + 4, T + 1):
+            for k in (1, 2):
+                for pol in (["random", "consumer_first"] if not ctx.thorough else ["random", "random", "consumer_first", "workers_first"]):
+                    if n is None or k <= n:
+                        ocases.append({"T": T, "n": n, "stop_after": k, "n2": orng.choice([0, 1, T, 2 * T + 3]), "seed": orng.randrange(1 << 30), "policy": pol})
+    ores = child.call("harness.checks.c13", "run_overlaps", ocases, timeout=900) if not ctx.replay else []
+    oreqs = [{"m": "mpool", "T": r["case"]["T"], "P": r["P"] if r["P"] is not None else 2 * r["case"]["T"] + 2,
+              "passes": [{"n": r["case"]["n"], "fails": []}, {"n": r["case"]["n2"], "fails": []}], "trace": r["labels"]} for r in ores]
+    oreps = lean.driver(oreqs) if oreqs else []
+    overlapped = 0
+    for r, rep in zip(ores, oreps):
+        a = r["case"]; overlapped += r["overlapped"] > 0
+        sig = {"kind": "reuse-overlap", "T_gt1": a["T"] > 1}
+        if r["status"] != "done" or r["stuck"]:
+            ctx.report(dict(sig, what=r["status"] if r["status"] != "done" else "stuck"),
+                       f"pool re-used while the abandoned pass drains: status {r['status']} {r.get('exc', '')}, stuck workers {r['stuck']} (T={a['T']} n={a['n']} stop_after={a['stop_after']} n2={a['n2']})",
+                       {"case": a, "result": {k: r[k] for k in r if k != "case"}})
+        elif sorted(r["got2"]) != [x * 10 + 1 for x in range(a["n2"])] or len(r["got"]) != a["stop_after"] or any(y % 10 for y in r["got"]):
+            ctx.report(dict(sig, what="results"), f"pool re-used while the abandoned pass drains: second pass yielded {sorted(r['got2'])} for {a['n2']} inputs (first pass {r['got']})",
+                       {"case": a, "result": {k: r[k] for k in r if k != "case"}})
+        elif not rep.get("ok"):
+            corr_bad.append({"case": a, "why": f"M-POOL(Multi) refuses {rep.get('label')} at {rep.get('at')}", "labels": r["labels"][:120]})
+        elif not all(rep["terminal"]) or rep["outs"][1] != [y // 10 for y in r["got2"]]:
+            corr_bad.append({"case": a, "why": f"M-POOL(Multi) end state: {rep}", "labels": r["labels"][:120]})
+        labels_total += len(r["labels"])
     for r, rep in zip(results, reps):
         v = judge(ctx, r, rep)
         if isinstance(v, tuple):
@@ -219,11 +299,12 @@ def run(ctx):
         ctx.report({"kind": "hypothesis"}, f"measured prefill count P < T: {bad_P} (hypothesis T <= P of the C13 theorems fails)",
                    {"theorem": "Sedpack.Pool.Good", "measured": sorted(Ps)}, name="hyp", nofail=True)
     ctx.cov.update({
-        "evaluations": len(results), "distinct_nontrivial": len({d for d in distinct if len(d[4]) > 6}),
-        "traces_validated_against_impl": len(results) - len(corr_bad), "labels_replayed": labels_total,
+        "evaluations": len(results) + len(ores), "distinct_nontrivial": len({d for d in distinct if len(d[4]) > 6}),
+        "traces_validated_against_impl": len(results) + len(ores) - len(corr_bad), "labels_replayed": labels_total,
         "measured_T_P": sorted(Ps), "exhaustive_enumerations": exh_info,
+        "overlapped_reuse_runs": len(ores), "overlapped_reuse_runs_with_old_workers_interleaved": overlapped,
         "rule": "real LazyPool under the deterministic scheduler: T in 1..3 (1..5 thorough), n around T and 2T+2, complete passes, early exits, "
-                "failing inputs, infinite sources, pool reuse; one random schedule per case (thorough: +300 random cases and exhaustive "
+                "failing inputs, infinite sources, pool reuse (after draining, and *overlapped*: a second pass started while the abandoned pass's workers are still scheduled, replayed through M-POOL Multi); one random schedule per case (thorough: +300 random cases and exhaustive "
                 "enumeration of all schedules for tiny (T,n)); distinct = distinct label traces with more than 6 labels",
         "samples": [{"case": r["case"], "labels": r["labels"][:40], "status": r["status"], "got": r["got"]} for r in results[:3]],
         "input_distribution": {"by_T": {t: sum(r["case"]["T"] == t for r in results) for t in range(1, 6)},
